@@ -101,9 +101,9 @@ CLAIMED = {
             "the Drop impls always commit their content; starting a nested @media / at-rule "
             "never takes content out of the parent destination; a failing step of an @each/@for/@while body ends the loop with that error; "
             "one recorded finding (a commit error inside Drop is only printed, so content can be dropped silently)"),
-    "C33": ("E2", "symbolic execution of <Formatted<Rgba> as Display>::fmt, Rgba::name, Rgba::from_name and Lookup::from_slice (MIR) with the byte triple, style and source format symbolic; the name table read from its promoted constant; bit-vector obligations decided by z3 and cvc5",
+    "C33": ("E2", "symbolic execution of <Formatted<Rgba> as Display>::fmt, Rgba::name, Rgba::from_name, Lookup::from_slice and Rgba::all_zero (MIR) with the byte triple, style and source format symbolic; the name table read from its promoted constant; bit-vector obligations decided by z3 and cvc5",
             "bounded model checking (hex / rgb() text scope): for ALL byte triples the three-digit, six-digit and rgb() forms are written with the right digits in red-green-blue order, "
-            "the three-digit form only for multiples of 17; a printed name reads back (Rgba::from_name) as the same three bytes, for ALL byte triples; whether the table's values are the CSS "
+            "the three-digit form only for multiples of 17; a printed name reads back (Rgba::from_name) as the same three bytes, for ALL byte triples; `transparent` is chosen only for four exactly-zero channels (every f64 quadruple); whether the table's values are the CSS "
             "named colours, rgba()/hsl() text and number formatting are outside"),
     "C36": ("E2", "symbolic execution of handle_item's comment arm and of the @use/@forward module initialiser closures (MIR), obligations decided by z3 and cvc5",
             "bounded model checking (dispatch scope): which loud comments reach the output in which style, that the emitted text is the evaluated comment, and that a "
